@@ -465,6 +465,100 @@ def run(ctx):
                                   "bound": "NoiseB.blindBound + one normalisation unit per product (pdriver noise blind), fresh key error 20 units of 2^-k_brk"}
         ctx.samples.append({"request": lines[0], "implementation": outl[0][:200], "model": mout[0][:200] if mout else None})
 
+    # ------------------------------------------------------------------ G. blind rotation on CIPHERTEXTS (executed model Core.Blind.execute)
+    # real key generation, the key read back from its serialisation; the output accumulator compared limb for limb with the Lean model of the three loops
+    r = rng.fork()
+    ccases = []
+    shapes = [  # (N, n_lwe, block, ext, dist)
+        (8, 4, 1, 1, "block"), (8, 4, 1, 1, "hw"), (8, 4, 1, 1, "prob"), (8, 3, 1, 1, "zero"),
+        (8, 4, 2, 1, "block"), (16, 8, 4, 1, "block"), (16, 8, 2, 1, "block"),
+        (8, 4, 1, 2, "block"), (8, 4, 2, 2, "block"), (16, 8, 4, 2, "block"), (8, 4, 2, 4, "block"), (16, 8, 4, 4, "block"), (16, 4, 1, 4, "block"),
+    ]
+    radices = [dict(b=10, klwe=12, kbrk=30, rows=2, klut=10, kres=20), dict(b=12, klwe=14, kbrk=36, rows=2, klut=24, kres=36, kset=14),
+               dict(b=7, klwe=9, kbrk=28, rows=3, klut=14, kres=21, kset=9)]
+    for si, (ng, nl, block, ext, dist) in enumerate(shapes):
+        for bi, be in enumerate(BES):
+            for left in (1, 0):
+                for ri, rad in enumerate(radices):
+                    if quick and (si + bi + ri + left) % 3 != 0 and not (ri == 0 and bi < 2):
+                        continue
+                    p = r.choice([1, 2, 3]) if ng >= 8 else 1
+                    c = dict(be=be, nglwe=ng, nlwe=nl, block=block, ext=ext, dist=dist, p=p, msg=r.below(1 << p), left=left, seed=r.range(1, 200),
+                             rank=2 if (si + ri + bi) % 4 == 3 else 1, lweb=r.choice([rad["b"], 3, 5]) if ri == 0 else rad["b"])
+                    c.update(rad)
+                    ccases.append(c)
+    # radix of `res` different from the key's (the block-binary loops do not look: modelled as is), one extra limb in res, one limb less
+    for be in ("fft64ref", "ntt120avx"):
+        for (ng, nl, block, ext) in [(8, 4, 1, 1), (8, 4, 2, 1), (8, 4, 2, 2)]:
+            ccases.append(dict(be=be, nglwe=ng, nlwe=nl, block=block, ext=ext, dist="block", p=2, msg=1, left=1, seed=11, rank=1, lweb=10, b=10, klwe=12, kbrk=30, rows=2,
+                               klut=10, kres=24, resb=8))
+            ccases.append(dict(be=be, nglwe=ng, nlwe=nl, block=block, ext=ext, dist="block", p=2, msg=3, left=0, seed=12, rank=1, lweb=10, b=10, klwe=12, kbrk=30, rows=2,
+                               klut=20, kres=40))
+            ccases.append(dict(be=be, nglwe=ng, nlwe=nl, block=block, ext=ext, dist="block", p=2, msg=2, left=1, seed=13, rank=1, lweb=10, b=10, klwe=12, kbrk=30, rows=3,
+                               klut=10, kres=10))
+    # dispatch: extension factor > 1 needs a block key
+    ccases.append(dict(be="fft64ref", nglwe=8, nlwe=4, block=1, ext=2, dist="hw", p=1, msg=0, left=1, seed=5, rank=1, lweb=10, b=10, klwe=12, kbrk=30, rows=2, klut=10, kres=20))
+    ccases.append(dict(be="fft64ref", nglwe=8, nlwe=4, block=1, ext=1, dist="ternary", p=1, msg=0, left=1, seed=5, rank=1, lweb=10, b=10, klwe=12, kbrk=30, rows=2, klut=10, kres=20))
+    lines = [f"{i} blindct " + " ".join(f"{k}={v}" for k, v in c.items()) for i, c in enumerate(ccases)]
+    rc, outl, err = ctx.run_lines(binp, ["lut"], lines, timeout=3000)
+    if rc != 0 or len(outl) != len(lines):
+        broken.append(f"pvh lut blindct failed rc={rc} {err[-300:]}")
+    else:
+        ml = []
+        idx = []
+        n_panic = 0
+        for i, c in enumerate(ccases):
+            it = outl[i].split()
+            d = kv(it)
+            if len(it) < 2 or it[1] != "ok":
+                # a panic before anything is dumped: only the dispatch cases may do that
+                n_panic += 1
+                ctx.count_case(("blindct", c["be"], "panic", c["dist"], c["ext"]), nontrivial=False)
+                if not (c["dist"] in ("hw", "ternary") and it[1:2] == ["panic:" + ("assert" if c["dist"] == "hw" else "other")]):
+                    ctx.disagreements += 1
+                    broken.append(f"blindct: {lines[i][:200]} -> {outl[i][:80]}")
+                continue
+            S, = [d["res"].split(":")[0].split("x")[1]]
+            big = 1 if c["be"].startswith("ntt120") else 0
+            ml.append(f"{i} lut blindct big={big} n={c['nglwe']} resb={c.get('resb', c['b'])} ress={S} rank={c['rank']} lweb={d['lweb']} left={c['left']} "
+                      f"limbs={d['lwe']} lut={d['lut']} dist={d['dist']} block={d['block']} gp={d['gp']} g={d['g']}")
+            idx.append(i)
+        rc2, mout, err2 = ctx.run_lines(drv, [], ml, timeout=3000)
+        if rc2 != 0 or len(mout) != len(ml):
+            broken.append(f"pdriver lut blindct failed rc={rc2} {len(mout)}/{len(ml)} {err2[-300:]}")
+        n_ct = 0
+        for j, i in enumerate(idx):
+            c = ccases[i]
+            d = kv(outl[i].split())
+            m = " ".join(mout[j].split()[1:]) if j < len(mout) else "?"
+            path = "ext" if c["ext"] > 1 else ("block" if (d["dist"] == "block" and int(d["block"]) > 1) else "std")
+            ctx.count_case(("blindct", c["be"], c["nglwe"], path, c["ext"], int(d["block"]), d["dist"], c["left"], c["rank"], c["b"], c.get("resb", c["b"]) != c["b"],
+                            int(d["lweb"]) < c["b"]))
+            n_ct += 1
+            if d["res"] != m:
+                ctx.disagreements += 1
+                if len(broken) < 20:
+                    broken.append(f"blindct: {lines[i][:220]} output accumulator differs: implementation={d['res'][:120]} model={m[:120]}")
+        # the dispatch panics, model side (no key needed to decide)
+        dl = []
+        for i, c in enumerate(ccases):
+            if c["dist"] in ("hw", "ternary") and (c["ext"] > 1 or c["dist"] == "ternary"):
+                dl.append((i, f"{i} lut blindct big=0 n=8 resb=10 ress=2 rank=1 lweb=10 left=1 limbs=0,0 lut={'0,0,0,0,0,0,0,0;' * (c['ext'] - 1)}0,0,0,0,0,0,0,0 "
+                              f"dist={'binary' if c['dist'] == 'hw' else 'other'} block=1 gp=10,1,1,1,1 g=" + ",".join(["0"] * (1 * 2 * 2 * 1 * 8))))
+        if dl:
+            rc3, dout, _ = ctx.run_lines(drv, [], [x[1] for x in dl])
+            for j, (i, _) in enumerate(dl):
+                a = " ".join(outl[i].split()[1:])
+                m = " ".join(dout[j].split()[1:]) if j < len(dout) else "?"
+                if a != m:
+                    ctx.disagreements += 1
+                    broken.append(f"blindct dispatch: {lines[i][:160]} implementation={a[:60]} model={m[:60]}")
+        ctx.cov["blind_ciphertext_level"] = {"accumulators_compared_limb_for_limb": n_ct, "dispatch_panics": n_panic,
+                                             "what": "Core.Blind.execute (execute_standard / execute_block_binary / execute_block_binary_extended on Core.GLWE values, "
+                                                     "real blind rotation key read back from its serialisation) = raw output accumulator of blind_rotation_execute"}
+        if idx:
+            ctx.samples.append({"request": lines[idx[0]], "implementation": kv(outl[idx[0]].split())["res"][:200], "model": (mout[0] if mout else "")[:200]})
+
     if broken or witness:
         ctx.log("broken:", *broken[:6])
         if witness:
